@@ -440,6 +440,10 @@ class CFG:
                 if cut_pred(lit, b, i) or any(cut_pred(l2, b, i) for l2 in impl):
                     continue
                 nf = dict(fd)
+                if lit is not None and lit.kind == "truth" and lit.node is not None and lit.node.const_value() is not None \
+                        and lit.node.k not in ("DeclRefExpr",):
+                    if bool(lit.node.const_value()) != lit.pol:
+                        continue            # if (0) / if (1) after a constant argument was substituted
                 if lit is not None and lit.kind in ("eq", "lt"):
                     # a comparison of a variable of known constant value with a constant is decided
                     lv = fd.get("=" + render(lit.lhs)) if lit.lhs.const_value() is None else lit.lhs.const_value()
